@@ -32,6 +32,7 @@ fn main() {
         "putq" => drivers::putq::run(&args),
         "query" => drivers::query::run(&args),
         "tickconf" => drivers::tickconf::run(&args),
+        "actorconf" => drivers::actorconf::run(&args),
         "auth" => drivers::auth::run(&args),
         "lookup" => drivers::lookup::run(&args),
         "join" => drivers::join::run(&args),
